@@ -475,9 +475,24 @@ func (op *redirOp) exec(fm *Frame, fops *[]formOwnedPort) Exception {
 	}
 
 	dstPort := growAccess(&fm.ports, dst)
+	// Keep one ownership record per port, so that handing the ownership of a
+	// port over to another fd (below) never moves the records.
+	for len(*fops) < len(fm.ports) {
+		*fops = append(*fops, formOwnedPort{})
+	}
 	dstFop := growAccess(fops, dst)
 	closeOldDst := func() {
 		if *dstPort != nil {
+			// After a duplication (n>&m) another fd uses the same port. It
+			// takes over the ownership instead of being left with a closed
+			// file or channel, as in "echo foo >b 2>&1 >&2".
+			for i, port := range fm.ports {
+				if i != dst && port == *dstPort {
+					*growAccess(fops, i) = *dstFop
+					*dstFop = formOwnedPort{File: false, Chan: false}
+					return
+				}
+			}
 			dstFop.close(*dstPort)
 			*dstFop = formOwnedPort{File: false, Chan: false}
 		}
